@@ -33,3 +33,16 @@ Definition expected_atomic_report : list (string * string) := [
   ("streams/resources/quota.(quota).Inc", "");
   ("utils/limit.(singleRateLimitState).TryToIncrement", "")
 ].
+
+(* The get-or-create sites (lockset/getorcreate.go: look-up of a key in a
+   lock-protected map and store into it in one body) that MUST be among the sites
+   the translator discovers; [C18_tree_get_or_create_one_hold] demands that every
+   discovered site - these and any new one - keeps look-up and store inside one
+   continuous hold of the map's lock. *)
+Definition expected_get_or_create_sites : list string := [
+  "streams/resources/quota.(fixedWindow).getQuota:streams/resources/quota.fixedWindow.quotaGroups";
+  "streams/resources/quota.(quota).Inc:streams/resources/quota.quota.allowedByReqID";
+  "streams/lunar-context.GetExpireWatcher:streams/lunar-context.(var).ewInstances";
+  "utils/limit.(RateLimitState).getLimiterState:utils/limit.RateLimitState.groupsStateByLimiter";
+  "utils/limit/concurrency.(Limiter).TryTakeSlot:utils/limit/concurrency.Limiter.slots"
+].
